@@ -152,7 +152,7 @@ def run_case(case, R):
                 R.state(("text", lab))
                 fmts = ["%.18e", "%.6e", "%g"] + (["%d"] if kind == "int" else [])
                 combos = list(itertools.product(fmts, [" ", ","], [None, "user text"], ["# ", "% "],
-                                                ["stringio", "path", "pathlib"], ["numpoly", "numpy"]))
+                                                ["stringio", "path", "pathlib", "bytesio", "stringio@offset", "bytesio@offset"], ["numpoly", "numpy"]))
                 # every option value with every other pairwise is overkill per input: full product on the first input
                 # of the block, the diagonal slices on the others (still every value of every option per input)
                 if case.get("tier") != "thorough" and (case["i0"] + inputs.index((shape, names, kind, label, var, sp))) % 6:
@@ -166,10 +166,18 @@ def run_case(case, R):
                         kw["header"] = header
                     save = numpoly.savetxt if spelling == "numpoly" else numpy.savetxt
                     try:
-                        if target == "stringio":
-                            f = io.StringIO()
+                        if target in ("stringio", "bytesio"):
+                            f = io.StringIO() if target == "stringio" else io.BytesIO()
                             save(f, p, **kw)
                             f.seek(0)
+                            src = f
+                        elif target.endswith("@offset"):
+                            # the array is the second block of one handle; reading starts where the block starts
+                            f = io.StringIO() if target.startswith("stringio") else io.BytesIO()
+                            numpy.savetxt(f, numpy.array([[9.0, 8.0, 7.0]] * (int(numpy.prod(shape)) if shape else 1)), header="another block")
+                            start = f.tell()
+                            save(f, p, **kw)
+                            f.seek(start)
                             src = f
                         else:
                             path = os.path.join(scratch, "p.txt")
